@@ -317,6 +317,15 @@ def raw_nfa_query(n, q, others):
     raise ValueError(kind)
 
 
+def memo_of(n):
+    """The lru_cache cached_method keeps in the instance's __dict__, read without creating or filling it:
+    None when empty, else the stored table."""
+    m = n.__dict__.get("_get_lambda_closures")
+    if m is None or m.cache_info().currsize == 0:
+        return None
+    return m()      # a hit: returns the stored object, changes nothing
+
+
 def canon_outcome(r):
     return (r[0], nfa_canon(r[1])) if r[0] == "ok" else r
 
@@ -375,7 +384,7 @@ def check_nfa_history(ctx, ndef, hist, other_defs, tag):
     problems, confirmed = [], False
     st = enc.Renum(enc.nfa_names(n))
     sy = enc.SymMap(n.input_symbols)
-    raws = []
+    raws, filled = [], []
     for i, q in enumerate(hist):
         raw = raw_nfa_query(n, q, others)
         got = canon_outcome(raw)
@@ -384,15 +393,31 @@ def check_nfa_history(ctx, ndef, hist, other_defs, tag):
             problems.append(f"query #{i} {q}: {got!r:.200} on the used instance, {fresh!r:.200} on a fresh copy")
             confirmed = True
         raws.append(raw)
+        filled.append([memo_of(x) is not None for x in [n] + others])
         ctx.tally("nfa_q_" + q[0])
     # the memo model on the same pool: instance 0 = the NFA under test, 1.. = the operands of ==
     same_sigma = [set(o.input_symbols) == set(n.input_symbols) for o in others]
     pool = [enc.enc_nfa(n, st, sy)] + [enc.enc_nfa(o, None, sy if same else None) for o, same in zip(others, same_sigma)]
     wq = [wire_nfa_query(q, sy) for q in hist]
     ans = ctx.driver.batch([(20, 2, enc.tree([pool, wq]))])[0]
-    valids, stepped, pure, spec = ans
+    valids, stepped, pure, spec, memos, filled_model = ans
     if not all(valids):
         problems.append(f"the model's validity predicate rejects a definition of the pool: {valids}")
+    # the memo itself (cached_method's lru_cache in the instance's __dict__): filled exactly when the model says so
+    # after every query, and at the end it holds the model's table
+    for i, (fi, fm) in enumerate(zip(filled, filled_model)):
+        if [bool(x) for x in fm] != fi:
+            problems.append(f"after query #{i} {hist[i]}: memos filled {fi} in the implementation, {fm} in the model")
+            break
+    sts = [st] + [enc.Renum(enc.nfa_names(o)) for o in others]
+    for k, (x, xs, mm) in enumerate(zip([n] + others, sts, memos)):
+        tbl = memo_of(x)
+        got_tbl = None if tbl is None else sorted([xs(q), sorted(xs(t) for t in c)] for q, c in tbl.items())
+        want_tbl = sorted(mm[0]) if mm else None
+        if got_tbl != want_tbl:
+            problems.append(f"instance {k}: cached closure table {got_tbl} after the history, the model's memo holds {want_tbl}")
+    if any(memo_of(x) is not None for x in [n] + others):
+        ctx.tally("nfa_memo_filled_and_compared")
     items, metas = [], []
     for i, (q, raw, ms, mp, msp) in enumerate(zip(hist, raws, stepped, pure, spec)):
         if ms != mp:
